@@ -191,14 +191,16 @@ fn buffered_exec(out: &mut Out, ex: &[Value]) {
 fn bus_exec(out: &mut Out, ex: &[Value]) {
     let cfg = &ex[0]["cfg"];
     let (s, pulls) = src(cfg);
-    let bus = s.bus();
+    // a `drop_bus` event drops the Bus handle itself: the outputs stay usable, no output can be attached any more
+    // and the backlog hook is gone (logged as -1)
+    let mut bus = Some(s.bus());
     let mut outs: Vec<Option<dasp_signal::bus::Output<Src>>> = Vec::with_capacity(ex.len());
     let live0 = heap_now().0[3];
-    let obs = |outs: &Vec<Option<dasp_signal::bus::Output<Src>>>, bus: &dasp_signal::bus::Bus<Src>| {
+    let obs = |outs: &Vec<Option<dasp_signal::bus::Output<Src>>>, bus: &Option<dasp_signal::bus::Bus<Src>>| {
         let live = heap_now().0[3] - live0; // heap footprint of the bus (and its outputs) since construction began
         let pend: Vec<Value> = outs.iter().enumerate()
             .filter_map(|(k, o)| o.as_ref().map(|o| json!([k, o.pending_frames(), o.is_exhausted()]))).collect();
-        json!({"ok": true, "pend": pend, "pulls": pulls.get(), "backlog": bus.verif_backlog_len(), "live": live})
+        json!({"ok": true, "pend": pend, "pulls": pulls.get(), "backlog": bus.as_ref().map(|b| b.verif_backlog_len() as i64).unwrap_or(-1), "live": live})
     };
     out.line(&json!({"ev":"reset","comp":"bus","cfg":cfg,"r":r_unit(),"o":obs(&outs, &bus)}));
     for op in &ex[1..] {
@@ -208,11 +210,15 @@ fn bus_exec(out: &mut Out, ex: &[Value]) {
             out.ev(ev, op["a"].clone(), r_unit(), obs(&outs, &bus), [0, 0, 0]);
             continue;
         }
-        let key = op["a"]["key"].as_u64().unwrap() as usize;
+        let key = op["a"]["key"].as_u64().unwrap_or(0) as usize;
         let (r, h, _) = measured(|| {
             catch(|| match ev {
+                "drop_bus" => {
+                    drop(bus.take());
+                    None
+                }
                 "send" => {
-                    let o = bus.send();
+                    let o = bus.as_ref().expect("bus handle").send();
                     outs.push(Some(o)); // capacity reserved above: no reallocation by the driver
                     None
                 }
@@ -308,10 +314,19 @@ fn gen(seed: u64, size: &str, path: &str) {
         let max_live = rng.range(1, 6) as usize;
         let mut mode = 0;
         let mut t = 0;
+        // every third history drops the Bus handle somewhere in its second half (with outputs at any lag)
+        let bus_drop_at = if h % 3 == 2 { n / 2 + rng.below(n as u64 / 4) as usize } else { usize::MAX };
+        let mut bus_alive = true;
         while t < n {
             if rng.chance(1, 30) { mode = rng.below(4); }
             let k = rng.below(100);
-            if live.is_empty() || (k < 8 && live.len() < max_live) {
+            if bus_alive && t >= bus_drop_at && !live.is_empty() {
+                ex.push(json!({"ev":"drop_bus","a":{"key":0}}));
+                bus_alive = false;
+                t += 1;
+            } else if !bus_alive && live.is_empty() {
+                break;
+            } else if bus_alive && (live.is_empty() || (k < 8 && live.len() < max_live)) {
                 ex.push(json!({"ev":"send","a":{"key":nk}}));
                 live.push(nk);
                 nk += 1;
